@@ -1,4 +1,5 @@
 import Proofs.Queued
+import Proofs.QueuedLog
 
 /-!
 # C17 — Queued evaluators never share a resource between concurrent jobs
@@ -18,10 +19,6 @@ pairwise distinct (`q0.Nodup`), and for progress `pop ≤ |q0|` and `workers ≥
 namespace DH.Queued
 
 variable {R : Type} {q0 : List R} {pop workers : Nat}
-
-theorem heldAll_nodup {s : QState R} (h : Reach q0 pop workers s) (hq : q0.Nodup) :
-    (heldAll s).Nodup :=
-  (List.nodup_append.1 ((reach_inv h).cons.nodup_iff.2 hq)).2.1
 
 /-- **C17 (exclusive).**  At every reachable state two different jobs hold disjoint sets of
 resources; in particular two evaluations that are running at the same time *received* disjoint
@@ -86,11 +83,6 @@ theorem C17_returned {s : QState R} (h : Reach q0 pop workers s) :
     rw [this, List.append_nil] at hcons
     exact hcons
 
-/-- a job is in every phase through an index -/
-theorem exists_index {l : List (QJob R)} {x : QJob R} (h : x ∈ l) : ∃ j : Nat, l[j]? = some x := by
-  obtain ⟨j, hj, hjx⟩ := List.mem_iff_getElem.1 h
-  exact ⟨j, by simp [hj, hjx]⟩
-
 /-- **C17 (no deadlock).**  While some job has not finished, some transition of some job is
 enabled — whatever was submitted, in whatever waves, whatever has completed so far. -/
 theorem C17_no_deadlock {s : QState R} (h : Reach q0 pop workers s) (hpop : pop ≤ q0.length)
@@ -147,20 +139,6 @@ theorem C17_no_deadlock {s : QState R} (h : Reach q0 pop workers s) (hpop : pop 
     simpa [hheld] using this
   have hle : s.pop ≤ s.queue.length := by rw [hi.hpop, hlen]; exact hpop
   exact ⟨.take j, _, by simp, by simp, by simp only [step, hx, hcreated, hle, if_true]; rfl⟩
-
-theorem reach_steps {s : QState R} (h : Reach q0 pop workers s) :
-    ∀ (ts : List QStep) {s' : QState R}, steps s ts = some s' → Reach q0 pop workers s' := by
-  intro ts
-  induction ts generalizing s with
-  | nil => intro s' hs; simp only [steps, Option.some.injEq] at hs; exact hs ▸ h
-  | cons t ts ih =>
-    intro s' hs
-    simp only [steps] at hs
-    cases ht : step s t with
-    | none => simp [ht] at hs
-    | some s1 =>
-      simp only [ht] at hs
-      exact ih (.step t h ht) hs
 
 /-- **C17 (progress).**  From every reachable state, with no further submission: (1) every run of
 `k` transitions (cancellations included) lowers the progress measure by at least `k`, so no job can
@@ -237,78 +215,6 @@ theorem C17_progress {s : QState R} (h : Reach q0 pop workers s) (hpop : pop ≤
 
 /-! ### close() -/
 
-/-- job `j` exists and its task is done -/
-def EndedAt (s : QState R) (j : Nat) : Prop := ∃ x, s.jobs[j]? = some x ∧ isEnded x.phase = true
-
-theorem cancel_effect {s s' : QState R} {k : Nat} (h : step s (.cancel k) = some s') :
-    s'.jobs.length = s.jobs.length ∧ EndedAt s' k ∧ ∀ j, j ≠ k → s'.jobs[j]? = s.jobs[j]? := by
-  cases step_spec h with
-  | cancel _ x hx hne =>
-    have hlt : k < s.jobs.length := (List.getElem?_eq_some_iff.1 hx).1
-    refine ⟨by simp [setJob], ⟨{ x with phase := .cancelled }, by simp [setJob, hlt], rfl⟩, ?_⟩
-    intro j hj
-    simp [setJob, List.getElem?_set, Ne.symm hj]
-
-theorem cancel_none {s : QState R} {k : Nat} (h : step s (.cancel k) = none) (hk : k < s.jobs.length) :
-    EndedAt s k := by
-  simp only [step] at h
-  have hx : s.jobs[k]? = some s.jobs[k] := by simp [hk]
-  rw [hx] at h
-  simp only at h
-  split at h
-  · rename_i he; exact ⟨_, hx, he⟩
-  · simp at h
-
-theorem cancelAll_spec : ∀ (order : List Nat) (s : QState R),
-    (cancelAll s order).jobs.length = s.jobs.length ∧
-    (∀ j, j < s.jobs.length → (j ∈ order ∨ EndedAt s j) → EndedAt (cancelAll s order) j) ∧
-    (∀ j, EndedAt s j → (cancelAll s order).jobs[j]? = s.jobs[j]?)
-  | [], s => ⟨rfl, fun j _ hj => by simpa [cancelAll] using hj, fun _ _ => rfl⟩
-  | k :: ks, s => by
-    simp only [cancelAll]
-    cases hk : step s (.cancel k) with
-    | none =>
-      obtain ⟨ih1, ih2, ih3⟩ := cancelAll_spec ks s
-      refine ⟨ih1, ?_, ih3⟩
-      intro j hj hor
-      apply ih2 j hj
-      rcases hor with hmem | he
-      · rcases List.mem_cons.1 hmem with rfl | hmem
-        · exact Or.inr (cancel_none hk hj)
-        · exact Or.inl hmem
-      · exact Or.inr he
-    | some s1 =>
-      obtain ⟨hl, hek, hother⟩ := cancel_effect hk
-      obtain ⟨ih1, ih2, ih3⟩ := cancelAll_spec ks s1
-      have hkeep : ∀ j, EndedAt s j → EndedAt s1 j ∧ s1.jobs[j]? = s.jobs[j]? := by
-        intro j ⟨x, hx, he⟩
-        have hjk : j ≠ k := by
-          rintro rfl
-          cases step_spec hk with
-          | cancel _ y hy hne => rw [hx] at hy; cases hy; rw [he] at hne; cases hne
-        exact ⟨⟨x, (hother j hjk) ▸ hx, he⟩, hother j hjk⟩
-      refine ⟨ih1.trans hl, ?_, ?_⟩
-      · intro j hj hor
-        apply ih2 j (hl ▸ hj)
-        rcases hor with hmem | he
-        · rcases List.mem_cons.1 hmem with rfl | hmem
-          · exact Or.inr hek
-          · exact Or.inl hmem
-        · exact Or.inr (hkeep j he).1
-      · intro j he
-        rw [ih3 j (hkeep j he).1, (hkeep j he).2]
-
-theorem reach_cancelAll {s : QState R} (h : Reach q0 pop workers s) :
-    ∀ order, Reach q0 pop workers (cancelAll s order) := by
-  intro order
-  induction order generalizing s with
-  | nil => exact h
-  | cons k ks ih =>
-    simp only [cancelAll]
-    cases hk : step s (.cancel k) with
-    | none => exact ih h
-    | some s1 => exact ih (.step _ h hk)
-
 /-- **C17 (close).**  `Evaluator.close()` — every task cancelled, in whatever order the event loop
 lets the cancelled tasks run — at any reachable state, jobs being in any mix of phases (waiting for
 resources, holding resources and waiting for a worker, running, returning): afterwards every job has
@@ -334,6 +240,25 @@ theorem C17_close {s : QState R} (h : Reach q0 pop workers s) (order : List Nat)
   refine ⟨hr, hfin, (C17_returned hr).2 hfin, ?_, fun ts s' hs => reach_steps hr ts hs⟩
   intro j x hx he
   rw [hkeep j ⟨x, hx, he⟩]; exact hx
+
+/-- **C17 (verified checker).**  The executable checker that the driver runs on the log of the
+REAL queued evaluator (`submit` calls, the run-function's `(start, job, dequed)` / `(end, job)` lines,
+the queue when `close()` returns, and at the end the `dequed` metadata, the returned jobs, the final
+queue, whether a call raised) decides exactly the property stated over logs (`LogSpec`: evaluations
+running at the same time received disjoint resources, each exactly `queue_pop_per_task`, metadata
+names what was received, every resource back after `close()` and at the end, no exception, every
+submitted job returned or ended by a close). -/
+theorem C17_checker [DecidableEq R] (lg : Log R) : checkLog lg = true ↔ LogSpec lg :=
+  checkLog_iff lg
+
+/-- **C17 (the model's logs satisfy the log property).**  For every script of the model — any
+waves, any admissible interleaving of the jobs' transitions, `close()` at any moment with the
+cancelled tasks running in any order, reuse afterwards — that ends with every job ended, the log an
+observer would read satisfies `LogSpec`. -/
+theorem C17_model_logs_ok (hq : q0.Nodup) (acts : List QAct) {s : QState R} {evs : List (LEv R)}
+    (hs : runScript (init q0 pop workers) acts = some (s, evs))
+    (hall : ∀ x ∈ s.jobs, isEnded x.phase = true) : LogSpec (logOf q0 pop s evs) :=
+  model_log_ok hq acts hs hall
 
 /-! ## Non-vacuity: a concrete reachable state (queue of 3, two resources per job, one worker;
 job 0 ran with `[10, 11]` and returned them, job 1 runs with `[12, 10]`, the second wave's job 2 waits) -/
@@ -370,6 +295,26 @@ example : ((steps (init [10, 11, 12] 2 1) exSteps).map (fun s => cancelAll s [0,
 example : (((steps (init [10, 11, 12] 2 1) exSteps).map (fun s => cancelAll s [2, 1, 0])).bind
       (fun s => steps s [.submit 1, .take 3, .start 3])).map (fun s => (s.queue, s.jobs.map (·.phase))) =
     some ([10], [.finished (some [10, 11]) [10, 11], .cancelled, .cancelled, .running [11, 12] (some [11, 12])]) := by
+  decide +kernel
+
+/-- a complete script with a close in the middle and reuse: its log passes the checker -/
+def exScript : List QAct :=
+  [.step (.submit 3), .step (.take 0), .step (.start 0), .step (.take 1), .close [2, 1, 0],
+   .step (.submit 1), .step (.take 3), .step (.start 3), .step (.endRun 3), .step (.release 3)]
+
+example : ((runScript (init [10, 11] 1 1) exScript).map (fun r => checkLog (logOf [10, 11] 1 r.1 r.2))) =
+    some true := by decide +kernel
+/-- the checker rejects the pinned tree's 12a log (two evaluations running with resource 3) … -/
+example : checkLog (R := Nat)
+    { q0 := [0, 1, 2, 3], pop := 1,
+      events := [.submit 4, .start 0 (some [0]), .start 1 (some [1]), .endRun 0, .start 2 (some [3]),
+                 .endRun 1, .start 3 (some [3]), .endRun 2, .endRun 3],
+      metas := [some [0], some [1], some [2], some [3]], returned := [0, 1, 2, 3],
+      finalQueue := [0, 1, 2, 3], error := false } = false := by decide +kernel
+/-- … and a log in which close() left the queue short of a resource -/
+example : checkLog (R := Nat)
+    { q0 := [10], pop := 1, events := [.submit 2, .start 0 (some [10]), .closed []],
+      metas := [none, none], returned := [], finalQueue := [], error := false } = false := by
   decide +kernel
 
 /-! ## Regression witnesses: the pinned tree's model (`stepPre`) violates the property
